@@ -590,6 +590,22 @@ def op_merge_interleave(st, op):
     return {"inputs": inputs, "outs": outs}
 
 
+def op_update_merged(st, op):
+    """db.update(<multi-member outputs of db.merge(...)>): merged features get their ids from the handle's
+    in-memory counters and are then stored."""
+    db = st.h[op["h"]]
+    feats = list(db.all_features(featuretype=op["ftype"], order_by=("seqid", "strand", "start")))
+    res = [m for m in db.merge(feats) if m.children]
+    out = []
+    for m in res:
+        d = fdict(m, with_line=False)
+        d["children"] = [c.id for c in m.children]
+        out.append(d)
+    if res:
+        db.update(res, merge_strategy="create_unique", make_backup=False)
+    return {"merged": out}
+
+
 def op_merge_all(st, op):
     db = st.h[op["h"]]
     kw = dict(op.get("kw") or {})
@@ -683,6 +699,7 @@ OPS = {
     "merge": op_merge,
     "interleave": op_interleave,
     "merge_all": op_merge_all,
+    "update_merged": op_update_merged,
     "merge_interleave": op_merge_interleave,
     "dataiter": op_dataiter,
     "inspect": op_inspect,
